@@ -305,8 +305,21 @@ def _mk_atoms(rec):
 
 
 def _connect(obj, atoms, rec):
+    """the bond SEQUENCE of the record, one bond object per entry: the first bond of a pair of atoms through `connect`,
+    every further bond of the same pair (parallel bonds, either orientation) and every self-bond through `Bond` + `append_bond`
+    (a structure is a multigraph: nothing in the API merges bonds)"""
+    from molli.chem import Bond
+    seen = set()
     for b in rec["bonds"]:
-        obj.connect(atoms[b[0]], atoms[b[1]], **dict(zip(BFIELDS[2:], b[2:])))
+        pair = frozenset((b[0], b[1]))
+        kw = dict(zip(BFIELDS[2:], b[2:]))
+        if pair in seen or b[0] == b[1]:
+            obj.append_bond(Bond(atoms[b[0]], atoms[b[1]], **kw))
+        else:
+            obj.connect(atoms[b[0]], atoms[b[1]], **kw)
+        seen.add(pair)
+    if len(obj.bonds) != len(rec["bonds"]):
+        raise RuntimeError(f"the public API built {len(obj.bonds)} bonds out of {len(rec['bonds'])}")
 
 
 def build(rec: dict):
@@ -847,8 +860,14 @@ def compare(inp: dict, back: dict) -> list:
         for f, x, y in zip(AFIELDS, a, b):
             (attr if f == "attrib" else scalar)(f"atom[{i}].{f}", x, y)
     if len(inp["bonds"]) != len(back["bonds"]):
-        out.append(("bond-count-changed", f"n_bonds {len(inp['bonds'])} -> {len(back['bonds'])}"))
-    for i, (a, b) in enumerate(zip(inp["bonds"], back["bonds"])):
+        # the sequences cannot be aligned any more: say which bonds (endpoints, label) are gone / new, not a cascade of field diffs
+        ends = lambda bs: [(b[0], b[1], b[2]) for b in bs]  # noqa: E731
+        gone = list(ends(inp["bonds"]))
+        for x in ends(back["bonds"]):
+            if x in gone:
+                gone.remove(x)
+        out.append(("bond-count-changed", f"n_bonds {len(inp['bonds'])} -> {len(back['bonds'])}; missing (a1, a2, label): {gone[:4]}"))
+    for i, (a, b) in enumerate(zip(inp["bonds"], back["bonds"]) if len(inp["bonds"]) == len(back["bonds"]) else []):
         for f, x, y in zip(BFIELDS, a, b):
             if f == "attrib":
                 attr(f"bond[{i}].attrib", x, y)
